@@ -241,7 +241,7 @@ def _leap_and_tables(model, res):
 def _guards(model, res, opaque, E):
     # EDATE: constructor only with 1900 <= year <= 9999
     m, f = model.registered('EDATE')
-    consts = guards.module_consts(m)
+    consts = guards.module_consts(m, model)
     ctors = [n for n in walk_no_defs(f) if isinstance(n, ast.Call) and (sa.call_name(n) or '').endswith('datetime') and len(n.args) == 3]
     final = [c_ for c_ in ctors if not all(isinstance(a, ast.Constant) for a in c_.args)]
     res.floor('EDATE result constructors', len(final), 1)
